@@ -1176,6 +1176,11 @@ func NewVHostPathRewriter(slashesCount int) PathRewriteFunc {
 		b.B = append(b.B, '/')
 		b.B = append(b.B, host...)
 		b.B = append(b.B, path...)
+		// host and path are already decoded, SetPathBytes would decode them once more:
+		// a %25 that had become % must not turn what follows it into an escape
+		if bytes.IndexByte(b.B, '%') >= 0 {
+			b.B = bytes.ReplaceAll(b.B, []byte("%"), []byte("%25"))
+		}
 		ctx.URI().SetPathBytes(b.B)
 		bytebufferpool.Put(b)
 
